@@ -91,7 +91,7 @@ def shrink(mod, scn, target, budget_s=60.0):
                 while start < len(items) and time.time() < deadline:
                     cand_items = items[:start] + items[start + chunk :]
                     cand = copy.deepcopy(best)
-                    _set(cand, path, cand_items)
+                    _set(cand, path, copy.deepcopy(cand_items))  # (items are still the dicts of `best`)
                     if hasattr(mod, "normalize"):
                         cand = mod.normalize(cand)
                     res = fails(cand) if cand is not None else None
